@@ -230,6 +230,7 @@ def run_rc_shards(exe, prop, seed, cases, shards, max_size, extra_env, timeout, 
         env["VERIF_HSEED"] = str(s + 1)
         env["VERIF_CASES"] = str(cases)
         env["VERIF_SHARD"] = str(i)
+        env["VERIF_DEADLINE_S"] = str(max(30, int(timeout) - 90))
         env["VERIF_REPO"] = REPO
         env.pop("VERIF_REPLAY", None)
         lp = os.path.join(work, "log-%d.txt" % i)
